@@ -77,6 +77,12 @@ CLAIMED = {
         text="Theorems: for every width and values old <= new < 256^w and every cut k, the counter decoded from a rewrite torn after k bytes is <= new, and a truncated counter is <= the full one; for ANY decoded header that carries the intended record length, with the record area of the image a prefix of the intended records followed by anything and count <= number of intended records, the reader either fails or returns a prefix of the intended records (C19_records_prefix); readFile is a total function (termination by construction). Partial: that a torn header rewrite / truncated header decodes to a header with the same offset, format and record length and with the torn count (key lemma (i) of DESIGN.md) is not yet a theorem; it is validated by running every crash image (every write-call boundary, every byte inside header rewrites, thorough: every byte of the stream) and every truncation of real LasData.write / LasWriter / LasAppender sessions through both laspy.read and the model's readFile and comparing verdicts and returned bytes.",
         note="Trusted: BytesIO/file write-at-position semantics; the recording stream sees every low-level write laspy issues (pure-Python writes through the stream object); EVLRs parsed through a stale pointer may be garbage or raise, only the points are constrained; OS-level torn sector writes below write() granularity are represented by byte-granular cuts.",
         design="6 (C19)"),
+    "C11": dict(
+        engine="lasdata",
+        technique="Lean 4 proof in exact rational arithmetic (core Rat; Mathlib linarith/nlinarith/field_simp for the inequalities): rounding error and range lemmas, invariant over all operation histories, write/stream theorems; correspondence of the rational model (with the header/record array aliasing) against real LasData histories on dyadic and decimal scalings",
+        text="Theorems for every positive scale, every offset, every rational coordinate: round-half-even moves a value by at most 1/2 and stays between integer bounds, so an accepted assignment stores an integer within 32 bits whose rendering is within half a step of the value (C11_assign), and a value outside the window is refused with nothing stored (C11_refused, C11_refused_keeps); for every operation (header edits in place or by rebinding, LasData and record assignments, change_scaling) accepted or refused, every stored coordinate still fits 32 bits (C11_inv_step: never wraps); what is presented is X*scale+offset under the record's current scaling; writing yields the header's scaling with every coordinate within half a header step of what was presented, or an error, and is a function of the state (caller untouched); the same for scale-aware records streamed into a writer/appender with another scaling (C11_stream, also the C06 rescale claim). The model carries the Python aliasing between header and record scale arrays (including the synchronisation that precedes the bounds check of a refused las.x assignment), and is compared with real histories: exactly on dyadic scalings (ties included), away from ties on decimal scalings.",
+        note="Trusted / partial: float64 evaluation of round((v-o)/s), of X*s+o and of the window test versus exact arithmetic - validated on dyadic inputs exactly and on decimal inputs away from ties (histories within 1e-5 of a tie or of the int32 window edge, or with |offset|/scale > 1e11 where a double cannot resolve the integer grid, are skipped and counted); NaN/inf coordinates are outside 'finite coordinates'.",
+        design="6 (C11)"),
 }
 NOT_YET = "check not built yet in this round (planned per DESIGN.md section 10); not claimed until its theorems build and its check is quiet"
 
@@ -112,6 +118,7 @@ manifest = {
     "engines": [
         {"name": "codec", "path": "harness/props/", "serves_properties": ["C07", "C08", "C02"], "kind_free_text": "Lean byte-level codecs (little-endian ints, fixed-width strings, dates, VLR framing, header) with round-trip theorems + byte-exact correspondence with the real serialisers"},
         {"name": "fileio", "path": "harness/fileio.py", "serves_properties": ["C01", "C03", "C04", "C05", "C06", "C19"], "kind_free_text": "Lean writer/reader/appender session model (Model/FileIO.lean) with the session structure theorem; real LasWriter/LasReader/LasAppender sessions compared byte for byte through the driver"},
+        {"name": "lasdata", "path": "harness/props/", "serves_properties": ["C11", "C12", "C13"], "kind_free_text": "Lean models of LasData-level operations (scaling in exact rationals, conversion, extra dimensions) compared with real LasData histories"},
         {"name": "bits", "path": "harness/props/", "serves_properties": ["C20", "C09", "C10"], "kind_free_text": "Lean theorems over generated tables/functions + exhaustive translation validation and correspondence through lean/Driver.lean"},
     ],
     "checks": checks,
